@@ -13,6 +13,7 @@ import (
 	"github.com/DataDog/datadog-traceroute/common"
 
 	"verif/props/core"
+	"verif/props/proto"
 	"verif/shim/vtime"
 	"verif/vsched"
 )
@@ -328,13 +329,80 @@ func replay(scn json.RawMessage, choices []int) (string, bool) {
 	return s + "oracle: ok\n", true
 }
 
+// ---- the real drivers under the parallel engine over the simulated wire ---------------------------------
+//
+// The merge is only schedule-independent if the drivers' own bookkeeping is: the same replies must give the same hops
+// however sender and receiver interleave, including replies that are already on the capture handle when the send call
+// returns (loopback, first hop).
+
+func genWire(tier string) []proto.Item {
+	var items []proto.Item
+	for _, v := range proto.Variants {
+		vi := proto.Info(v)
+		if !vi.Parallel {
+			continue
+		}
+		for _, r := range [][3]int{{1, 4, 3}, {2, 5, 5}} {
+			for _, lat := range []string{"none", "default", "none-at-one-hop"} {
+				s := proto.Scn{Variant: v, First: r[0], Last: r[1], Dest: r[2], IPIDBase: 700, EchoBase: 71, TimeoutMs: 100, DelayMs: 10}
+				s.Hops = map[int]proto.HopSpec{}
+				switch lat {
+				case "none":
+					for t := r[0]; t <= r[1]; t++ {
+						s.Hops[t] = proto.HopSpec{DelayUs: -1}
+					}
+				case "none-at-one-hop":
+					s.Hops[r[0]+1] = proto.HopSpec{DelayUs: -1}
+				}
+				items = append(items, proto.Item{Scn: s, Class: fmt.Sprintf("wire/%s/r%d-%d/latency-%s", v, r[0], r[1], lat)})
+			}
+		}
+	}
+	return items
+}
+
+var WF = &proto.Family{ID: "C07", Gen: genWire, SameAcrossSchedules: true, NoSecondRun: true,
+	Check: func(it *proto.Item, r *proto.Result) []proto.Issue {
+		if r.Obs[0].Err != nil {
+			return []proto.Issue{{Key: "run-error", Detail: r.Obs[0].Err.Error()}}
+		}
+		return proto.Completeness(&it.Scn, r, 0)
+	},
+	Bound: func(tier string) int {
+		if tier == "thorough" {
+			return 3
+		}
+		return 2
+	}}
+
 func init() {
+	engineCount, engineRun, engineReplay := count, run, replay
+	count := func(tier string) int { return engineCount(tier) + WF.Count(tier) }
+	run := func(tier string, idx int, r *core.ScnResult) {
+		if n := engineCount(tier); idx >= n {
+			WF.Run(tier, idx-n, r)
+			return
+		}
+		engineRun(tier, idx, r)
+	}
+	replay := func(scn json.RawMessage, choices []int) (string, bool) {
+		var w struct {
+			Scn json.RawMessage `json:"scn"`
+		}
+		if json.Unmarshal(scn, &w); w.Scn != nil {
+			return WF.Replay(scn, choices)
+		}
+		return engineReplay(scn, choices)
+	}
 	core.Register(&core.Property{
-		ID:    "C07",
-		Level: "model_checking",
+		NeedsNetns: true,
+		ID:         "C07",
+		Level:      "model_checking",
 		Rule: "scenario = (first,last TTL, delivery sequence over {ttl x responder x dest?}); every sequence up to the length bound is enumerated; " +
 			"for each, every interleaving of the real common.TracerouteParallel (sender, receiver, caller threads; virtual clock) within the deviation bound " +
-			"(preemptions + clock-advance deviations) is executed and compared with the reference fold+clip; non-trivial = sequence non-empty; distinct = distinct canonical results",
+			"(preemptions + clock-advance deviations) is executed and compared with the reference fold+clip; non-trivial = sequence non-empty; distinct = distinct canonical results; " +
+			"wire: every parallel variant's real driver under the real engine over the simulated wire with replies of no / default latency, every schedule within the preemption bound, " +
+			"oracle: same hops as the default schedule and every in-window reply reported",
 		Count:      count,
 		Run:        run,
 		Replay:     replay,
